@@ -223,6 +223,54 @@ def run_silence(ctx, only=None):
                 ctx.fail(v.key, v.what, v.case)
 
 
+def trailing_points():
+    c = convs
+    est_acc = [('burst', c.enc(c.RQ_SPEC)), ('user', {'pdu': c.AC_SPEC})]
+    est_req = [('user', {'pdu': c.RQ_SPEC}), ('burst', c.enc(c.AC_SPEC))]
+    return {
+        'req-peer-abort': ('requestor', est_req, c.ABORT_SU, True, False),
+        'acc-peer-abort': ('acceptor', est_acc, c.ABORT_SP, True, False),
+        'req-release-confirmed': ('requestor', est_req + [('user', {'pdu': c.REL_RQ})], c.REL_RP, True, False),
+        'req-rejected': ('requestor', [('user', {'pdu': c.RQ_SPEC})], c.RJ_SPEC, True, False),
+        'acc-aborted-then-peer-abort': ('acceptor', est_acc + [('user', {'pdu': c.ABORT_SU})], c.ABORT_SU, True, True),
+    }
+
+
+def run_trailing(ctx, only=None):
+    """The peer's LAST PDU (A-ABORT, A-RELEASE-RP, A-ASSOCIATE-RJ) is followed in the same burst by more bytes - what it
+    still had in flight - and the peer then keeps its side of the connection open for good.  The association is over
+    with that PDU: the provider closes and is idle, whatever is still unread."""
+    echo = refpdu.enc_pdu(convs.echo_rq(1))
+    trails = {'none': b'', 'two-pdus': echo * 2, '70kB-of-pdus': echo * (70000 // len(echo) + 1),
+              '200kB-of-zeros': b'\x00' * 200000, 'half-a-pdu': echo[:9]}
+    for name, (role, steps, last, engaged, user_ended) in sorted(trailing_points().items()):
+        for tname, trail in sorted(trails.items()):
+            for split in (False, True):
+                if only is not None and only != (name, tname, split):
+                    continue
+                case = {'kind': 'trailing', 'point': name, 'trail': tname, 'split': split}
+                actions = []
+                for s_ in steps:
+                    if s_[0] == 'burst':
+                        actions += [{'k': 'seg', 'data': r, 'eager': False} for r in s_[1]]
+                    else:
+                        actions.append({'k': 'user', 'prim': convs.user_prim(s_[1])})
+                raw = refpdu.enc_pdu(last)
+                if split:
+                    # (the trailing bytes are a segment of their own, already waiting when the last PDU is acted on)
+                    actions += [{'k': 'seg', 'data': raw, 'eager': False}, {'k': 'seg', 'data': trail, 'eager': True}] if trail \
+                        else [{'k': 'seg', 'data': raw, 'eager': False}]
+                else:
+                    actions.append({'k': 'seg', 'data': raw + trail, 'eager': False})
+                actions += [{'k': 'tick', 'dt': 1.0}, {'k': 'tick', 'dt': ARTIM + 1.0}, {'k': 'tick', 'dt': 1.0}]
+                sim = simnet.run_scenario(role, actions, budget=60000)
+                ctx.case(('trailing', name, tname, split), bool(trail), labels=['trailing-bytes', 'point=' + name], sample=case)
+                try:
+                    end_oracle(name, sim, case, engaged, user_ended, 'last PDU followed by %s, peer never closes' % tname)
+                except Violation as v:
+                    ctx.fail(v.key, v.what, v.case)
+
+
 def run_other_association(ctx):
     """While one provider waits on ARTIM (silent peer), ANOTHER association is served to completion in the same
     process.  The waiting provider must still expire on time: per-association state (timer, slot, decoder) must
@@ -471,7 +519,7 @@ def run(ctx):
     ctx.rule = ('for each of %d conversations (both roles): peer disconnect after EVERY byte prefix of the peer\'s '
                 'stream, with and without the next local step racing the disconnect; the disconnect surfacing as a failure of the k-th local write, for every k; the peer pausing 11.5 s during the k-th write (after the process carried another association); peer silence at each of 13 '
                 'points where ARTIM is armed (with a silent peer, a chattering peer and a peer that stalls in the middle of a PDU), checked just before and '
-                'just after the deadline; another association served to completion in the same process while a provider waits on ARTIM; a local user that fetches nothing while the peer pipelines 40 / 1100 messages, followed by each way of ending; a stop request (kill) and stop() at every quiescent point of every '
+                'just after the deadline; the last PDU of the peer (A-ABORT / A-RELEASE-RP / A-ASSOCIATE-RJ) followed in the same burst by up to 200 kB it still had in flight, the peer then never closing; another association served to completion in the same process while a provider waits on ARTIM; a local user that fetches nothing while the peer pipelines 40 / 1100 messages, followed by each way of ending; a stop request (kill) and stop() at every quiescent point of every '
                 'conversation; Association.kill() for both stop() outcomes; non-trivial = cut strictly inside the '
                 'conversation, or a silence/kill/stop variant; distinct by (kind, conversation, position)' % len(c))
     ctx.assumptions = ['"bounded time" is simulated time; an unresponsive peer is modelled as silence',
@@ -479,6 +527,7 @@ def run(ctx):
                        'exhaustive over the scenario corpus, not over all conversations']
     parallel(ctx, run_conv, [{'conv': n, 'thorough': ctx.thorough} for n in sorted(c)])
     run_silence(ctx)
+    run_trailing(ctx)
     run_other_association(ctx)
     run_backlog(ctx)
     run_assoc_kill(ctx)
@@ -501,6 +550,8 @@ def replay(case):
             run_kill_stop(sub, case['conv'], role, steps, case['at'])
     elif k == 'silence':
         run_silence(sub, (case['point'], case['chatter']))
+    elif k == 'trailing':
+        run_trailing(sub, (case['point'], case['trail'], case['split']))
     elif k == 'other-association':
         run_other_association(sub)
     elif k == 'backlog':
